@@ -81,7 +81,7 @@ def _prep(data):
 def validate_traces(ctx):
     """code -> spec: recorded adds of the repository's tests and of a seeded random driver against Trace_Forest.tla."""
     from . import traces as T
-    n_driver = 120 if ctx.quick else 1200
+    n_driver = 60 if ctx.quick else 1200
     for source, data, meta in (("testsuite", T.record_testsuite(), {}),
                                ("driver", T.run_driver("forest", ctx.seed, n_driver), {"seed": ctx.seed, "n": n_driver})):
         trs, objs = _prep(data)
